@@ -356,6 +356,67 @@ VOC_TEXTS = ["0 10 aset length", "[1, 2] length", '"abc" length', "0 5 aset 7 9 
              "0 4 aset (2 9 aset) overlap", "[0 4 aset, 1] elem length", "(0 4 aset, [1], \"a\") length", "0 4 aset value", "0x10 value", "1 pos", "T_ASET", "DW_AT_name value"]
 
 
+def job_many_inputs(payload):
+    """ONE compiled query executed dozens of times on a stream of different inputs, earlier ones coming back after many others: each
+    execution must yield what a fresh compile-and-run yields for that input.  And, on one opened Dwarf, the same question asked of the
+    same DIE in the cooked and in the raw view right after each other, against each view asked alone on a handle of its own."""
+    seed, = payload
+    d = common.get_driver()
+    rng = random.Random(seed)
+    out = {"many_input_execs": 0, "view_pairs": 0, "bad": []}
+    pats = [chr(97 + i) for i in range(26)] + ["ab", "bc", "a.*z", "m.*", "q", "xyz", "[a-c]", "(d|e)f", "g+", "^a", "z$", "no"]
+    texts = ['"abcdefghijklmnopqrstuvwxyz" swap ?match', '"abcdefghijklmnopqrstuvwxyz" swap !match', '(|P| ("abcdef", "uvwxyz", "mno") ?(=~ P))',
+             '"abcdefghijklmnopqrstuvwxyz" swap ?find', '(|P| "<%( P %)>" P add length)', '(|P| [P, "b", P] (== [P, "b", P]))']
+    try:
+        for t in texts:
+            d.req("parse id=mi q=%s" % common.hx(t))
+            first = rng.sample(pats, 4)
+            stream = first + rng.sample([p for p in pats if p not in first], rng.randint(17, 24)) + first[:2] + rng.sample(pats, 6) + first
+            refs = {}
+            for p in stream:
+                inp = "s:%s:0" % p.encode().hex()
+                if p not in refs:
+                    refs[p] = d.run(t, inp=inp, fuel=0, max=1000)
+                d.req("exec qid=mi rid=mir in=%s fuel=0" % inp)
+                rr = d.req("next rid=mir max=1000 fuel=0")
+                d.req("rdestroy rid=mir")
+                out["many_input_execs"] += 1
+                if (rr["st"], [ser(x) for x in rr.get("res", [])], bool(rr["stderr"])) != (refs[p]["st"], [ser(x) for x in refs[p].get("res", [])], bool(refs[p]["stderr"])):
+                    out["bad"].append(("impure:execution-after-many-others-differs-from-fresh-compile", dict(text=t, input=p, position_in_stream=stream.index(p), stream_length=len(stream),
+                                                                                                          got=len(rr.get("res", [])), want=len(refs[p].get("res", [])))))
+                    break
+            d.req("qdestroy id=mi")
+        tdir = os.path.join(common.REPO, "tests")
+        for f in ("nullptr.o", "typedef.o", "dwz-partial"):
+            path = os.path.join(tdir, f)
+            if not os.path.exists(path):
+                continue
+            for w in rng.sample(["name", "@AT_name", "@AT_decl_line", "@AT_type", "@AT_byte_size", "?AT_name 1", "?AT_external 1", "!AT_name 1", "attribute label", "child offset", "parent offset"], 5):
+                alone_c = d.run("entry (|D| [D %s])" % w, inp="d:" + common.hx(path), fuel=0, max=100000, timeout=120)
+                alone_r = d.run("entry (|D| [D raw %s])" % w, inp="d:" + common.hx(path), fuel=0, max=100000, timeout=120)
+                for order in ("[D %s] [D raw %s] [D %s]", "[D raw %s] [D %s] [D raw %s]"):
+                    both = d.run("entry (|D| %s)" % (order % (w, w, w)), inp="d:" + common.hx(path), fuel=0, max=100000, timeout=120)
+                    out["view_pairs"] += 1
+                    if both["st"] != "done" or alone_c["st"] != "done" or alone_r["st"] != "done":
+                        if not (both["st"] == alone_c["st"] == alone_r["st"]):
+                            out["bad"].append(("impure:views-asked-after-each-other:status", dict(file=f, word=w, st=[both["st"], alone_c["st"], alone_r["st"]])))
+                        continue
+                    cooked_first = order.startswith("[D %s]")
+                    for k, st in enumerate(both["res"]):
+                        a, b, c = [ser(x) for x in st[-3:]]
+                        wc, wr = ser(alone_c["res"][k][-1]), ser(alone_r["res"][k][-1])
+                        want = (wc, wr, wc) if cooked_first else (wr, wc, wr)
+                        if (a, b, c) != want:
+                            out["bad"].append(("impure:raw-and-cooked-view-asked-right-after-each-other-on-one-Dwarf", dict(file=f, word=w, die_index=k, order=order % (w, w, w))))
+                            break
+    except common.DriverCrash as ex:
+        out["bad"].append(("crash:" + getattr(ex, "key", ex.kind), dict(report=ex.report[-3000:])))
+    except common.DriverTimeout as ex:
+        out["bad"].append(("hang", dict()))
+    out["bad"] = out["bad"][:30]
+    return out
+
+
 def job_vocgrow(payload):
     """The same text compiled twice with ONE vocabulary object that grew in between (core words first, DWARF words added): the second
     query must be what a fresh compile with the complete vocabulary is -- overloaded words (length, add, elem, ...) mean more afterwards."""
@@ -472,11 +533,13 @@ def run(chk):
              if os.path.exists(os.path.join(tdir, f))]
     zcheck.consume(chk, pool.map(job_dwarf, [(f, chk.seed + i) for i, f in enumerate(files)]), tot, ctx, samples, "C12 dwarf")
     zcheck.consume(chk, pool.map(job_many_live, [(chk.seed * 15485863 + i,) for i in range(6 if quick else 100)]), tot, ctx, samples, "C12 many live")
+    zcheck.consume(chk, pool.map(job_many_inputs, [(chk.seed * 32452867 + i,) for i in range(6 if quick else 100)]), tot, ctx, samples, "C12 many inputs")
     zcheck.consume(chk, pool.map(job_vocgrow, [(chk.seed * 2750159 + i, 30) for i in range(8 if quick else 160)]), tot, ctx, samples, "C12 vocabulary")
     hs = pool.hook_stats()
     pool.finish()
     chk.cov.update({
         "result_sets_parked_deep_in_closure_recursion_beside_each_other": tot.get("many_live_sets", 0),
+        "executions_of_one_query_on_long_streams_of_inputs": tot.get("many_input_execs", 0), "raw_and_cooked_view_asked_after_each_other": tot.get("view_pairs", 0),
         "texts_compiled_again_after_their_vocabulary_grew": tot.get("vocgrow_runs", 0),
         "evaluations": tot.get("histories", 0) + tot.get("compile_pairs", 0) + tot.get("dw_histories", 0),
         "distinct_nontrivial": tot.get("nontrivial", 0),
